@@ -9,7 +9,7 @@ TECH_E1 = 'bounded symbolic model checking of the real C++ (clang LLVM IR -> ir2
 TECH_E2 = 'bounded symbolic model checking over schedules: real Worker.hpp / block-constructor IR made resumable at blocking primitives, scheduler choices are solver variables (cbmc)'
 
 def E1(ref, text, note): return (ref, text, note, TECH_E1)
-def E2(ref, text, note): return (ref, text, note, TECH_E2)
+def E2(ref, text, note, tech=None): return (ref, text, note, tech or TECH_E2)
 BASE_NOTE = 'clang-14 -O1 IR of /repo; ir2c.py (checked per obligation by a native differential self-test); rt/stubs.c environment model (allocation never fails, streams, logging, exceptions = abnormal termination); cbmc 6.11 + SAT; bounds as listed in the evidence file'
 CLAIMS = {
  'C01': E1('3/C01', 'Solver-decided for ALL valid input sets within the bounds (PFC whole kind: n<=3..5 strings of <=2..3 bytes over 0x02..0xFE, every bucket size listed): locate/extract are mutually inverse, lengths and terminators exact, on the fresh object and on the object reloaded from its image; DAC_VLS unit for the Re-Pair kinds\' sequence store incl. the list length the constructors pass. Other kinds: units only (DESIGN.md table).', BASE_NOTE),
@@ -21,7 +21,7 @@ CLAIMS = {
  'C08': E1('3/C08', 'PFC within the bounds: two saves identical, build-twice images byte-identical (uninitialised heap bytes are nondeterministic in the model, so a stray byte fails), save of a loaded image reproduces it, image unchanged by a query; same for DAC_VLS/DAC_BVLS/LogSequence units.', BASE_NOTE),
  'C09': E2('3/C09', 'Real HASHRPDACBlocks constructor + real WorkerPool under every schedule within the bounds: blocks land in input order, every slot filled before the constructor returns, same parts/indexes for 1 and 2 workers; the per-block builder is abstracted by name.', BASE_NOTE + '; rt/e2_rt.h primitive model'),
  'C10': E2('3/C10', 'Real parallel/Worker.hpp (WorkerPool, Worker, WorkerQueue; real std::function, real condition-variable predicate loop) under EVERY schedule with at most K-1 context switches (pre-emption at every lock / wait / join point): no deadlock (lost wake-up, wait_workers not returning), every task runs exactly once and never concurrently with itself. Counterexample schedules are replayed on real threads under a schedule-forcing pthread layer.', 'clang-14 -O1 IR incl. libstdc++ header code; ir2c.py resumable mode; rt/e2_rt.h (mutex, condition variable, thread start/join model; sequentially consistent); task queue container replaced by a bounded FIFO (harness); cbmc'),
- 'C11': E2('3/C11', 'Real parallel/Worker.hpp under every schedule within the context bound: every load/store of the thread code that touches the WorkerPool object (queue, flags), a Worker object or the task counters is checked by an Eraser-style lockset monitor (state per 4-byte granule, lockset = model mutexes held); a shared location written without a common lock fails. Reported races are confirmed with ThreadSanitizer on the real code. The block constructor\'s own shared state and the per-block builder are NOT covered (stated in DESIGN.md).', 'as C10, plus rt/e2_rt.h lockset monitor; shared regions as registered by the harness'),
+ 'C11': E2('3/C11', 'Real parallel/Worker.hpp under every schedule within the context bound: every load/store of the thread code that touches the WorkerPool object (queue, flags), a Worker object or the task counters is checked by an Eraser-style lockset monitor (state per 4-byte granule, lockset = model mutexes held); a shared location written without a common lock fails. Reported races are confirmed with ThreadSanitizer on the real code. The block constructor\'s own shared state and the per-block builder are NOT covered (stated in DESIGN.md).', 'as C10, plus rt/e2_rt.h lockset monitor; shared regions as registered by the harness', TECH_E2 + '; lockset (Eraser) monitor assertion over instrumented loads/stores; ThreadSanitizer confirmation'),
  'C12': E1('3/C12', 'Two PFC dictionaries built from the same symbolic input with different bucket sizes (incl. 0 and 1, which must be replaced by 2) answer every locate / extract(any id) / locatePrefix query identically, for all inputs within the bounds.', BASE_NOTE),
  'C13': E1('3/C13', 'PFC extractTable within the bounds: exactly n strings, k-th == extract(k), reported length == strlen, hasNext false afterwards; extractPrefix iterators from every in-bucket offset; ID iterators (contiguous, duplicates with the caller-written sentinel, non-contiguous) and the vector string iterator over symbolic backing arrays.', BASE_NOTE),
  'C14': E1('3/C14', 'PFC within the bounds: for ALL query pairs (A,B) the answer to A is the same before and after B with an iterator left open, pattern buffers (incl. guard byte) unchanged, and the saved image of the object is bit-identical before and after any single query (inductive step for histories of any length).', BASE_NOTE),
@@ -59,9 +59,9 @@ def main():
                         enable='checks compile /repo sources with -DLIBCSD_VERIF (plus -DLIBCSD_VERIF_MEMALLOC=<n> where an obligation says so); the library build is untouched',
                         baseline_off_cmd='cmake -G Ninja -S /repo -B /repo/_build >/dev/null && cmake --build /repo/_build >/dev/null && ctest --test-dir /repo/_build -j8 --timeout 900',
                         source_commits=hooks_commits, add_only=True),
-             engines=[dict(name='irsym', path='vlib/core.py', serves_properties=[p for p in OBL.ALL_PROPS if p in CLAIMS and p not in OBL.E2_PROPS],
+             engines=[dict(name='irsym', path='vlib/core.py', serves_properties=[p for p in OBL.ALL_PROPS if p in CLAIMS and OBL.obligations(p) and p not in OBL.E2_PROPS],
                            kind_free_text='clang++-14 -S -emit-llvm of /repo sources + C++ harness -> llvm-link -> ir2c.py (typed IR->C) -> cbmc; native g++/ASan replay'),
-                      dict(name='seqsched', path='vlib/e2.py', serves_properties=[p for p in OBL.E2_PROPS if p in CLAIMS],
+                      dict(name='seqsched', path='vlib/e2.py', serves_properties=[p for p in OBL.E2_PROPS if p in CLAIMS and OBL.obligations(p)],
                            kind_free_text='same translation in resumable mode + modelled pthread primitives + symbolic scheduler, cbmc')],
              checks=checks,
              notes='All checks are bounded symbolic checks of the real code; bounds, stubs and what lies outside are in DESIGN.md and in each evidence file. Exit 2 = machinery broken (never a verdict).',
